@@ -52,6 +52,7 @@ Definition keeps (cur : obj) (o : op) (r : res) : Prop :=
   match r with
   | RRaise x | RSame x | RNone x => same_ca x cur
   | RNew x => same_ca x cur \/ (o = OAsMulti /\ o_cls x = o_cls cur + 4)
+              \/ (exists b, o = OCtorVal b /\ o_cls x = o_cls cur)
   | RPlain => True
   end.
 
@@ -80,6 +81,19 @@ Proof.
     try (brk; simpl; auto; try apply derive_keeps; fail).
   - (* OImul *) destruct (base_of (o_cls cur)); simpl; auto.
   - (* OReverse *) destruct (base_of (o_cls cur)); simpl; auto.
+  - (* OCtorVal *) brk; simpl; auto; right; right; eexists; split; reflexivity.
+Qed.
+
+Lemma nl_eqb_eq l1 : forall l2, nl_eqb l1 l2 = true -> l1 = l2.
+Proof.
+  induction l1 as [|x r IH]; intros [|y r2]; simpl; try discriminate; auto.
+  rewrite andb_true_iff, Nat.eqb_eq. intros [-> H]. f_equal. apply IH. exact H.
+Qed.
+
+Lemma ctorval_not_promised c b : promised c (opname (OCtorVal b)) = false.
+Proof.
+  unfold promised, promised_names. destruct (base_of c); try (vm_compute; reflexivity).
+  destruct (Nat.eqb c 5); vm_compute; reflexivity.
 Qed.
 
 (* a promised operation never hands back a bare builtin *)
@@ -107,8 +121,8 @@ Qed.
 Lemma next_same tags cur other o : same_ca (next cur (step tags cur other o)) cur.
 Proof.
   pose proof (step_keeps tags cur other o) as H. destruct (step tags cur other o) as [x|x|x|x|]; simpl in *; auto.
-  destruct (Nat.eqb (o_cls x) (o_cls cur)) eqn:E; auto.
-  destruct H as [H|[_ H]]; [exact H|]. apply Nat.eqb_eq in E. lia.
+  destruct (Nat.eqb (o_cls x) (o_cls cur) && nl_eqb (o_attrs x) (o_attrs cur)) eqn:E; auto.
+  apply andb_true_iff in E. destruct E as [E1 E2]. apply Nat.eqb_eq in E1. apply nl_eqb_eq in E2. split; assumption.
 Qed.
 
 Definition keeps0 (c0 : nat) (a0 : list nat) (o : op) (r : res) : Prop :=
@@ -131,7 +145,9 @@ Proof.
     + intros Hf Hp. split.
       * apply step_promised; rewrite Hc; assumption.
       * intros x Hx Hno. pose proof (step_keeps tags cur other o) as H. rewrite Hx in H. simpl in H.
-        destruct H as [[H1 H2]|[H1 _]]; [|contradiction]. rewrite H1, H2. auto.
+        destruct H as [[H1 H2]|[[H1 _]|[b [H1 _]]]]; [|contradiction|].
+        -- rewrite H1, H2. auto.
+        -- subst o. rewrite ctorval_not_promised in Hp. discriminate.
   - apply IH; destruct (next_same tags cur other o) as [H1 H2]; congruence.
 Qed.
 
@@ -296,6 +312,21 @@ Section Validated.
       intros Hv. apply negb_true_iff in E. congruence.
     - (* OAsMulti *) destruct (forallb _ (o_payload cur));
         intros [H|[H|[H|H]]]; inversion H; subst; simpl; try exact Hok. intros _ ec [].
+    - (* OCtorVal *) destruct (all_valid tags (o_cls cur) _ (o_payload cur)) eqn:E;
+        intros [H|[H|[H|H]]]; inversion H; subst; simpl; try exact Hok.
+      apply all_valid_adm. exact E.
+  Qed.
+
+  Lemma ctorval_spec cur other b x :
+    step tags cur other (OCtorVal b) = RNew x ->
+    o_cls x = o_cls cur /\ o_payload x = o_payload cur
+    /\ o_attrs x = firstn 1 (o_attrs cur) ++ (if b then 0 else 1) :: skipn 2 (o_attrs cur)
+    /\ (validation_on (o_attrs x) = true ->
+        forall ec, In ec (o_payload x) -> accepts (o_cls x) (btype (o_attrs x)) (tag tags (fst ec)) = true).
+  Proof.
+    unfold step. destruct (is_list_profile (o_cls cur) || is_multi_profile (o_cls cur)); [|discriminate].
+    destruct (all_valid tags (o_cls cur) _ (o_payload cur)) eqn:E; [|discriminate].
+    intros H. inversion H; subst; simpl. repeat split. apply all_valid_adm. exact E.
   Qed.
 
   Definition res_ok (r : res) : Prop :=
@@ -311,7 +342,7 @@ Section Validated.
       + destruct (next_same tags cur other o) as [H1 _]. rewrite H1. exact Hl.
       + destruct (step tags cur other o) eqn:E; simpl; auto;
           try (eapply (list_profile_step_ok cur other o Hl Hok); rewrite E; auto; fail).
-        destruct (Nat.eqb (o_cls o0) (o_cls cur)); [|exact Hok].
+        destruct (Nat.eqb (o_cls o0) (o_cls cur) && nl_eqb (o_attrs o0) (o_attrs cur)); [|exact Hok].
         eapply (list_profile_step_ok cur other o Hl Hok); rewrite E; auto.
   Qed.
 End Validated.
